@@ -174,3 +174,22 @@ func init() {
 		return bytesToElems(h[:20])
 	}
 }
+
+func init() {
+	// ibc-go denomination traces, for denominations without a path (no '/'): the trace is the base
+	// denomination itself. Denominations with a path are outside the modelled fragment.
+	externals["github.com/cosmos/ibc-go/v8/modules/apps/transfer/types.ParseDenomTrace"] = func(fr *frame, args []value) value {
+		raw, ok := force(args[0]).(string)
+		if !ok || strings.Contains(raw, "/") {
+			panic(engineError{"ibc ParseDenomTrace: symbolic or multi-hop denomination not modelled"})
+		}
+		return structure{"", raw}
+	}
+	externals["(github.com/cosmos/ibc-go/v8/modules/apps/transfer/types.DenomTrace).IBCDenom"] = func(fr *frame, args []value) value {
+		st := args[0].(structure)
+		if p, ok := st[0].(string); !ok || p != "" {
+			panic(engineError{"ibc DenomTrace.IBCDenom: denomination with a path not modelled"})
+		}
+		return st[1]
+	}
+}
